@@ -28,6 +28,7 @@ import (
 	"strconv"
 	"strings"
 	"sync"
+	"sync/atomic"
 	"testing"
 	"time"
 
@@ -67,6 +68,11 @@ type svTrace struct {
 }
 
 var svT *svTrace
+
+var svLastLine atomic.Int64 // unix nanos of the last logged line of any tree (watchdog, independent of the mutexes)
+var svOpen atomic.Int64     // trees not yet ended
+
+const svMaxLines = 4000 // a tree with a handful of scripted failures that logs more than this is restarting endlessly
 
 type svInst struct {
 	no      int
@@ -146,6 +152,7 @@ func (t *svTree) emit(ev string, a map[string]interface{}) {
 	svT.w.WriteByte('\n')
 	svT.w.Flush() // a crash of the processor goroutine kills the process: keep what was recorded
 	t.lastProg = time.Now()
+	svLastLine.Store(t.lastProg.UnixNano())
 }
 
 // log performs an optional API call and records the line, atomically with respect to all other logged steps.
@@ -356,6 +363,10 @@ func (t *svTree) drive(dir string, stall time.Duration) {
 		svT.mu.Lock()
 		ok, why := t.settled()
 		killNow := t.sc.KillAfter >= 0 && t.n >= t.sc.KillAfter
+		if t.n > svMaxLines {
+			t.emit("Runaway", map[string]interface{}{"lines": t.n, "why": why})
+			killNow = true
+		}
 		idle := time.Since(t.lastProg)
 		if ok {
 			t.emit("Settled", nil)
@@ -477,6 +488,18 @@ func TestVerifSupervisor(t *testing.T) {
 	sem := make(chan struct{}, par)
 	var wg sync.WaitGroup
 	t0 := time.Now()
+	svLastLine.Store(t0.UnixNano())
+	svOpen.Store(int64(len(scs)))
+	go func() { // watchdog: the supervisor's lock (or the harness) is wedged if nothing at all is logged for stall + 10 s
+		for {
+			time.Sleep(500 * time.Millisecond)
+			if svOpen.Load() > 0 && time.Since(time.Unix(0, svLastLine.Load())) > stall+10*time.Second {
+				p := svDump(dir, 0, "hung")
+				fmt.Printf("VERIF-SUPERVISOR-HUNG dump=%s open=%d\n", p, svOpen.Load())
+				os.Exit(3)
+			}
+		}
+	}()
 	for i := range scs {
 		tr := &svTree{sc: scs[i], count: map[string]int{}, active: map[string]int{}, cur: map[string]*svInst{}, lastProg: time.Now()}
 		wg.Add(1)
@@ -484,6 +507,7 @@ func TestVerifSupervisor(t *testing.T) {
 		go func() {
 			defer wg.Done()
 			defer func() { <-sem }()
+			defer svOpen.Add(-1)
 			tr.drive(dir, stall)
 		}()
 	}
